@@ -54,7 +54,7 @@ func genC05(t *rapid.T) c05Case {
 	}
 	if rapid.IntRange(0, 2).Draw(t, "neg") == 0 {
 		c.Delta = pick(t, "delta", int64(1), -1, 2, 1<<32)
-		c.DeltaAt = rapid.IntRange(0, 6).Draw(t, "at")
+		c.DeltaAt = rapid.IntRange(0, 7).Draw(t, "at")
 	}
 	return c
 }
@@ -99,7 +99,7 @@ func runC05(c c05Case) Result {
 		h3 := ref.H2(c.B, h2)
 		h4 := ref.H1(c.A)
 		h5 := ref.H2(h4, h3)
-		outs := []*big.Int{h0, h1, h2, h3, h4, h5, ref.H2(c.A, c.B)}
+		outs := []*big.Int{h0, h1, h2, h3, h4, h5, ref.H2(c.A, c.B), ref.H2(c.A, c.A)}
 		a := &PosChainCircuit{A: c.A, B: c.B}
 		for i := range outs {
 			if i == c.DeltaAt {
